@@ -11,7 +11,8 @@ const char* const PROP_ID = "C04";
 namespace {
 const size_t kSizes[] = {1, 2, 3, 61, 62, 63, 4033, 4034, 4035, 4095, 4096, 4097, 10000};
 
-struct Drain { int mode; std::vector<size_t> ks; };   // mode 0 = internal buffer, 1 = GetData with sizes ks (cycled)
+struct Drain { int mode; std::vector<size_t> ks; std::vector<uint8_t> which; };   // mode 0 = internal buffer, 1 = GetData with sizes ks (cycled),
+// 2 = one session mixing both interfaces: step i uses GetData(ks[i]) when which[i] else GetInternalBuffer (both cycled)
 
 struct LibResult { std::vector<uint8_t> out; bool threw = false; std::string what; };
 
@@ -30,6 +31,28 @@ LibResult run_lib(const std::vector<uint8_t>& in, const Drain& d, size_t limit) 
 				if (n == 0) break;
 				V_CHECK(n <= 4096, "GetInternalBuffer reported " << n << " bytes from a 4096-byte window");
 				r.out.insert(r.out.end(), p, p + n);
+				V_CHECK(r.out.size() <= limit, "decoder produced more than " << limit << " bytes; reference stops earlier (no termination?)");
+			}
+		} else if (d.mode == 2) {
+			// both interfaces interleaved on ONE decoder: they drain the same queue, so the concatenation is the same byte sequence;
+			// the stream has ended when the internal-buffer call reports 0 or a copy comes back short
+			size_t i = 0;
+			for (;; ++i) {
+				if (!d.which[i % d.which.size()]) {
+					size_t n = 0;
+					const char* p = dec.GetInternalBuffer(&n);
+					if (n == 0) break;
+					V_CHECK(n <= 4096, "GetInternalBuffer reported " << n << " bytes from a 4096-byte window");
+					r.out.insert(r.out.end(), p, p + n);
+				} else {
+					size_t k = d.ks[i % d.ks.size()];
+					char* buf = static_cast<char*>(malloc(k));
+					struct F2 { char* p; ~F2() { free(p); } } g2{buf};
+					size_t got = dec.GetData(buf, k);
+					V_CHECK(got <= k, "GetData returned " << got << " for a buffer of " << k);
+					r.out.insert(r.out.end(), buf, buf + got);
+					if (got < k) break;
+				}
 				V_CHECK(r.out.size() <= limit, "decoder produced more than " << limit << " bytes; reference stops earlier (no termination?)");
 			}
 		} else {
@@ -53,7 +76,7 @@ LibResult run_lib(const std::vector<uint8_t>& in, const Drain& d, size_t limit) 
 void compare(const std::vector<uint8_t>& in, const reflzh::DecodeResult& ref, const Drain& d, const char* family) {
 	size_t limit = ref.out.size() + 8192;
 	LibResult lib = run_lib(in, d, limit);
-	std::string how = d.mode == 0 ? "internal-buffer drain" : "GetData drain (first size " + std::to_string(d.ks[0]) + ")";
+	std::string how = d.mode == 0 ? "internal-buffer drain" : d.mode == 2 ? "one session mixing GetData and GetInternalBuffer (first size " + std::to_string(d.ks[0]) + ")" : "GetData drain (first size " + std::to_string(d.ks[0]) + ")";
 	if (!ref.capacity) {
 		V_CHECK(!lib.threw, family << ": decoder threw '" << lib.what << "' on an input the reference decodes completely (" << ref.codes << " codes, " << ref.out.size() << " bytes); " << how << "; input " << in.size() << "B " << hex(in, 24));
 		if (in.empty() && lib.out.empty()) return;   // the statement is silent on the empty input
@@ -154,6 +177,17 @@ void run_case(Tape& t, Stats& st) {
 	d2.mode = 1 - d1.mode; if (d2.ks.empty()) d2.ks.push_back(4096);
 	compare(in, ref, d1, fname);
 	compare(in, ref, d2, fname);
+	if (t.below(2) == 0) {   // mixed session
+		Drain d3; d3.mode = 2;
+		unsigned n = 2 + unsigned(t.below(5));
+		for (unsigned i = 0; i < n; ++i) {
+			d3.which.push_back(uint8_t(t.below(3) != 0));
+			d3.ks.push_back(t.below(4) == 0 ? 1 + t.below(9000) : t.pick<size_t>({1, 2, 3, 61, 62, 63, 96, 1000, 3000, 4033, 4034, 4035, 4095, 4096, 4097, 8192}));
+		}
+		d3.which[t.below(n)] = 0; d3.which[t.below(n)] = 1;   // at least one of each whenever possible
+		compare(in, ref, d3, fname);
+		st.cls("mixed_interface_session");
+	}
 	if (t.below(6) == 0) { vol_path(in, ref); st.cls("vol_extract_path"); }
 	st.cls(d1.mode == 0 ? "first_drain:internal" : "first_drain:getdata");
 	account(st, ref, lenHist, distHist, fname, fnv1a(in.data(), in.size(), d1.ks[0]));
@@ -174,8 +208,8 @@ void run_sweep(Stats& st) {
 		std::vector<uint8_t> payload; auto in = reflzh::encode(toks, payload);
 		auto ref = reflzh::decode(in, lenHist, distHist);
 		V_CHECK(std::equal(payload.begin(), payload.end(), ref.out.begin()), "harness self-check: reference decode != payload");
-		for (size_t k : {size_t(1), size_t(63), size_t(4096)}) compare(in, ref, Drain{1, {k}}, "sweep-match");
-		compare(in, ref, Drain{0, {1}}, "sweep-match");
+		for (size_t k : {size_t(1), size_t(63), size_t(4096)}) compare(in, ref, Drain{1, {k}, {}}, "sweep-match");
+		compare(in, ref, Drain{0, {1}, {}}, "sweep-match");
 		account(st, ref, lenHist, distHist, "sweep-match", hmix(len, dists[di]));
 	}
 	// window wrap with every drain size of the table, internal buffer, and the VOL path
@@ -185,9 +219,24 @@ void run_sweep(Stats& st) {
 		for (unsigned i = 0; i < 2600; ++i) { s = s * 6364136223846793005ULL + 1442695040888963407ULL; if ((s >> 33) % 3) toks.push_back({true, 0, 3 + unsigned((s >> 40) % 58), 1 + unsigned((s >> 20) % 4096)}); else toks.push_back({false, uint8_t(s >> 50), 0, 0}); }
 		std::vector<uint8_t> payload; auto in = reflzh::encode(toks, payload);
 		auto ref = reflzh::decode(in, lenHist, distHist);
-		for (size_t ki = 0; ki < sizeof kSizes / sizeof kSizes[0]; ++ki) { if (!sw("wrap_drain", kSizes[ki])) continue; compare(in, ref, Drain{1, {kSizes[ki]}}, "sweep-wrap"); }
-		if (sw("wrap_drain_mixed")) compare(in, ref, Drain{1, {1, 4097, 61, 4033, 3}}, "sweep-wrap");
-		if (sw("wrap_internal")) compare(in, ref, Drain{0, {1}}, "sweep-wrap");
+		for (size_t ki = 0; ki < sizeof kSizes / sizeof kSizes[0]; ++ki) { if (!sw("wrap_drain", kSizes[ki])) continue; compare(in, ref, Drain{1, {kSizes[ki]}, {}}, "sweep-wrap"); }
+		if (sw("wrap_drain_mixed")) compare(in, ref, Drain{1, {1, 4097, 61, 4033, 3}, {}}, "sweep-wrap");
+		if (sw("wrap_internal")) compare(in, ref, Drain{0, {1}, {}}, "sweep-wrap");
+		// mixed sessions: copies adding up to exact multiples of the window, then the internal interface (and other switch points)
+		{
+			const std::vector<std::vector<size_t>> sched = {{4096}, {1000, 3000, 96}, {4095}, {4097}, {1}, {2048, 2048}, {8192}, {61, 4035}, {4034, 62}};
+			for (size_t si = 0; si < sched.size(); ++si) for (unsigned pat = 0; pat < 3; ++pat) {
+				if (!sw("wrap_mixed", si, pat)) continue;
+				Drain d; d.mode = 2;
+				for (size_t k : sched[si]) { d.ks.push_back(k); d.which.push_back(1); }
+				if (pat == 0) { d.ks.push_back(1); d.which.push_back(0); }                                     // copies..., internal, repeat
+				else if (pat == 1) { d.ks.insert(d.ks.begin(), 1); d.which.insert(d.which.begin(), 0); }      // internal, copies..., repeat
+				else { d.ks.push_back(1); d.which.push_back(0); d.ks.push_back(1); d.which.push_back(0); }  // two internal calls in a row
+				compare(in, ref, d, "sweep-wrap-mixed");
+			}
+			// 4096 single-byte copies, then the internal interface
+			if (sw("wrap_mixed_bytes")) { Drain d; d.mode = 2; d.ks.assign(4097, 1); d.which.assign(4097, 1); d.which[4096] = 0; compare(in, ref, d, "sweep-wrap-mixed"); }
+		}
 		if (sw("wrap_vol")) vol_path(in, ref);
 		account(st, ref, lenHist, distHist, "sweep-wrap", 4242);
 	}
@@ -200,7 +249,7 @@ void run_sweep(Stats& st) {
 			if (!sw("prefix", n)) continue;
 			std::vector<uint8_t> in(full.begin(), full.begin() + n);
 			auto ref = reflzh::decode(in, lenHist, distHist);
-			compare(in, ref, Drain{0, {1}}, "sweep-prefix"); compare(in, ref, Drain{1, {7}}, "sweep-prefix");
+			compare(in, ref, Drain{0, {1}, {}}, "sweep-prefix"); compare(in, ref, Drain{1, {7}, {}}, "sweep-prefix");
 		}
 	}
 	// capacity-crossing inputs (more than 65221 codes): must end in an error, prefix delivered
@@ -211,7 +260,7 @@ void run_sweep(Stats& st) {
 		for (size_t i = 0; i < in.size(); ++i) in[i] = which == 0 ? 0x00 : which == 1 ? 0xFF : which == 2 ? uint8_t(i % 2 ? 0x0F : 0xA5) : uint8_t((i * 2654435761u) >> 13);
 		auto ref = reflzh::decode(in, lenHist, distHist);
 		st.cls(ref.capacity ? "directed_capacity_input:crosses" : "directed_capacity_input:does_not_cross");
-		compare(in, ref, Drain{0, {1}}, "sweep-capacity"); compare(in, ref, Drain{1, {4096}}, "sweep-capacity"); compare(in, ref, Drain{1, {1}}, "sweep-capacity");
+		compare(in, ref, Drain{0, {1}, {}}, "sweep-capacity"); compare(in, ref, Drain{1, {4096}, {}}, "sweep-capacity"); compare(in, ref, Drain{1, {1}, {}}, "sweep-capacity");
 		vol_path(in, ref);
 		account(st, ref, lenHist, distHist, "sweep-capacity", which);
 	}
@@ -222,7 +271,7 @@ void run_sweep(Stats& st) {
 		std::vector<uint8_t> payload; auto in = reflzh::encode(toks, payload);
 		auto ref = reflzh::decode(in, lenHist, distHist);
 		// the padding bits of the last byte may or may not need a 65222nd code; both outcomes are the reference's call
-		compare(in, ref, Drain{0, {1}}, "sweep-capacity-edge"); compare(in, ref, Drain{1, {10000}}, "sweep-capacity-edge");
+		compare(in, ref, Drain{0, {1}, {}}, "sweep-capacity-edge"); compare(in, ref, Drain{1, {10000}, {}}, "sweep-capacity-edge");
 		st.cls(ref.capacity ? "edge:needs_one_more_code" : "edge:fits_exactly");
 	}
 }
